@@ -123,11 +123,11 @@ PROPS = {
         'Verus contracts on the extracted FileManager with File opaque + bounded Kani harness on the generic reader',
         'std::fs::File / OpenOptions are external_body with no postcondition'),
     'C19': P(
-        'Proof (Kani, complete: all 2^32 operand pairs, all 65536 words, bit-vector loops fully unwound) of the integer bit primitives; the IEEE-754 byte codec only as a bounded/attempted unit.',
-        'qb_and == &, qb_or == | on 16-bit two\'s complement for all pairs; NOT = bitwise complement; i32_to_bytes/bytes_to_i32 inverse and equal to the little-endian word; PEEK/POKE byte view of an INTEGER.',
-        'MKD$/CVD beyond the attempted bound (encoder normalisation loop up to 1023 iterations; |x| >= 2^63 and subnormals explicitly not decided)',
+        'Proof (Kani, complete: all 2^32 operand pairs, all 65536 words, bit-vector loops fully unwound) of the integer bit primitives, and (since the repair of F11/F12) of the IEEE-754 byte codec over all 2^64 bit patterns except the NaN patterns.',
+        'qb_and == &, qb_or == | on 16-bit two\'s complement for all pairs; NOT = bitwise complement; i32_to_bytes/bytes_to_i32 inverse and equal to the little-endian word; PEEK/POKE byte view of an INTEGER; f64_to_bytes == the binary64 encoding, least significant byte first; bytes_to_f64 == the double those bytes encode; both round trips bit for bit (every finite double incl. |x| >= 2^63, subnormals, +0/-0, and +inf/-inf).',
+        'what MKD$/CVD do with NaN patterns (not demanded); the string <-> byte mapping around the codec (to_ascii_string/to_ascii_bytes in mkd.rs/cvd.rs) and CVD of a string that is not 8 characters long',
         'Kani full-domain harnesses with unwinding assertions on fixed-width loops',
-        'f64 codec: attempt unit, reported UNDECIDED when CBMC does not finish'),
+        'f64 codec: complete, compared on bits (to_bits / byte arrays), never with the float =='),
     'C20': P(
         'Proof that every combinator of the parsing library honours the contract of the property statement: loop-free combinators by Kani against nondeterministic contract stubs of their sub-parsers (complete over all stub behaviours), the repetition/delimited loops by Verus (unbounded iteration count) against a trait-level contract.',
         'per combinator: position after soft failure == start (where documented), fatal errors never swallowed/downgraded, choice = first success from the original position, peek consumes nothing, optional/default never fail softly, sequence-after-first converts to fatal; ManyParser = maximal run of successes, DelimitedParser rejects a trailing delimiter fatally.',
